@@ -125,8 +125,15 @@ func (t *Input) CoerceIn(v interface{}) (interface{}, error) {
 					// list goes through the field type so that it gets the
 					// defaults of its own fields.
 					dv := dupValue(f.Default)
-					switch dv.(type) {
-					case map[string]interface{}, []interface{}:
+					_, isObj := dv.(map[string]interface{})
+					_, isList := dv.([]interface{})
+					if isObj || isList || rt == nil {
+						// Without a Go type to fill, the result is the map and
+						// a default in it must have the same form a supplied
+						// value would have (an Int is an int32, a Float a
+						// float32, ...). Coercing the result again, schema
+						// validation does that with directive defaults on every
+						// load, then does not change it any more.
 						if co, _ := f.Type.(InCoercer); co != nil {
 							var err error
 							if dv, err = co.CoerceIn(dv); err != nil {
